@@ -160,6 +160,30 @@ def gen_faults(m, type_sets, faults=True):
                                 yield with_fault(cfg, fid, sc)
 
 
+def gen_params(m):
+    """SP: the ordering must not depend on what the functions take: in one phase, middleware j provides a name
+    which earlier functions mention with a default and later ones require or default."""
+    from ref.bind import PROVIDES_ATTR
+    full = (True, True, True)
+    types = tuple('ABX'[:m])
+    for levels in level_seqs(m):
+        if 'outer' in levels:
+            continue
+        for ph in PHASES:
+            for j in range(m):
+                roles = [(None, 'def') if i < j else ((None,) if i == j else (None, 'def', 'req')) for i in range(m)]
+                for combo in itertools.product(*roles):
+                    if not any(combo):
+                        continue
+                    for ep_kind in ('response', 'context'):
+                        cfg = base_cfg(levels, types, [full] * m, ep_kind, True, False)
+                        cfg['mws'][j][PROVIDES_ATTR[ph]] = ['u']
+                        for i, role in enumerate(combo):
+                            if role:
+                                cfg['mws'][i][ph]['params'] = [['u', role]]
+                        yield cfg
+
+
 def distinct_types(m):
     return [tuple('ABN'[:m])] if m <= 3 else [tuple('ABNA')]
 
@@ -172,10 +196,12 @@ def layers(tier):
     if tier == 'quick':
         return [('S1-%d' % m, (lambda m=m: gen_structure(m))) for m in (0, 1, 2, 3)] + \
                [('S2-1', lambda: gen_faults(1, distinct_types)), ('S2-2', lambda: gen_faults(2, distinct_types)),
-                ('S2-2dup', lambda: gen_faults(2, dup_types, False))]
+                ('S2-2dup', lambda: gen_faults(2, dup_types, False)),
+                ('SP-2', lambda: gen_params(2)), ('SP-3', lambda: gen_params(3))]
     return [('S1-%d' % m, (lambda m=m: gen_structure(m))) for m in (0, 1, 2, 3, 4)] + \
            [('S2-1', lambda: gen_faults(1, distinct_types)), ('S2-2', lambda: gen_faults(2, distinct_types)),
-            ('S2-2dup', lambda: gen_faults(2, dup_types)), ('S3-3', lambda: gen_faults(3, distinct_types))]
+            ('S2-2dup', lambda: gen_faults(2, dup_types)), ('S3-3', lambda: gen_faults(3, distinct_types)),
+            ('SP-2', lambda: gen_params(2)), ('SP-3', lambda: gen_params(3))]
 
 
 def skeleton(trace):
